@@ -14,7 +14,7 @@ for name in sorted(rules, key=lambda s: (s[0] != 'C', s)):
     if name.startswith('R'):
         meta = json.load(open(f'{V}/regressions/{name}/meta.json'))
         own = meta['properties']
-        what = 'reverse of fix ' + meta.get('commit', '')[:7] + ': ' + first_sentence(meta.get('summary', meta.get('what', '')), 110)
+        what = first_sentence(meta.get('summary', meta.get('what', '')).replace('reverse of the /repo commit ', 'reverse of '), 130)
     else:
         meta = json.load(open(f'{V}/seeded/{name}/meta.json'))
         own = [name.split('-')[0]]
